@@ -213,7 +213,7 @@ def prepare_layouts():
     """every placed layout a session needs, exported by TLC in the parent (workers only read them)"""
     L.tables()
     want = [dict(L.SMALL_LEADER), dict(L.SMALL_LEADER, nmap=0), dict(file="volume", nfp=4), dict(file="trailer", nlow=0, lens=[])]
-    for n, p in ((4, 3), (5, 3), (3, 2)):
+    for n, p in ((4, 3), (5, 3), (3, 2), (20, 3), (21, 3), (15, 2)):
         want.append(dict(file="image", kind="processed", n=n, ndata=p * 2, bps=2))
         want.append(dict(file="image", kind="signal", n=n, ndata=p * 8, bps=8))
     L.instances(want)
